@@ -55,6 +55,7 @@ ObsClasses(o) == {e.c : e \in Range(o.iso) \cup Range(o.jol) \cup Range(o.udf)} 
 FromObs(o, base) ==
     [base EXCEPT !.iso = ObsTree(o.iso), !.jol = ObsTree(o.jol), !.udf = ObsTree(o.udf),
                  !.blob = [c \in ObsClasses(o) |-> ObsBlobOf(o, c)],
+                 !.grp  = [c \in ObsClasses(o) |-> c],
                  !.npvd = o.npvd,
                  !.cfg.level = o.cfg.level]
 
@@ -73,6 +74,29 @@ ObsPartition(o) ==
         cs  == {x[2].c : x \in {y \in all : y[2].k = "file" /\ y[2].c # 0 /\ ~IsEmptyBlob(y[2].b)}}
     IN {{<<x[1], x[2].p>> : x \in {y \in all : y[2].c = c}} : c \in cs}
 
+\* ---- what the independent ISO9660/Joliet decoder recovered from the written image ----------
+\* in the plain ISO9660 view a Rock Ridge symlink is an empty file
+DecShape(t) == {<<p, IF t[p].k = "dir" THEN "dir" ELSE "file">> : p \in DOMAIN t}
+DecSeen(list) == {<<e.p, e.k>> : e \in Range(list)}
+\* Joliet has no symlinks: the model's jol tree holds only what was put there
+DecBlobs(list) == {<<e.p, e.b>> : e \in {x \in Range(list) : x.k = "file" /\ x.n > 0}}
+ModelBlobs(s, t) == {<<p, s.blob[t[p].ino]>> : p \in {q \in DOMAIN t : t[q].k = "file" /\ t[q].ino \in DOMAIN s.blob
+                                                              /\ ~IsEmptyBlob(s.blob[t[q].ino])}}
+\* two names share data sectors iff they are links to the same content (non-empty content)
+DecNames(d) == {<<"iso", e>> : e \in {x \in Range(d.iso) : x.k = "file" /\ x.n > 0}}
+               \cup {<<"jol", e>> : e \in {x \in Range(d.jol) : x.k = "file" /\ x.n > 0}}
+InoOf(s, ns, p) == IF p \in DOMAIN Tree(s, ns) THEN Tree(s, ns)[p].ino ELSE 0
+SharedIffLinked(s, d) ==
+    \A a \in DecNames(d) : \A b \in DecNames(d) :
+        (InoOf(s, a[1], a[2].p) # 0 /\ InoOf(s, b[1], b[2].p) # 0)
+        => ((a[2].x = b[2].x) <=> (InoOf(s, a[1], a[2].p) = InoOf(s, b[1], b[2].p)))
+DecMismatch(s, d) ==
+       (IF DecShape(s.iso) # DecSeen(d.iso) THEN {"Dec_Tree_iso"} ELSE {})
+  \cup (IF s.cfg.joliet # 0 /\ DecShape(s.jol) # DecSeen(d.jol) THEN {"Dec_Tree_jol"} ELSE {})
+  \cup (IF ModelBlobs(s, s.iso) # DecBlobs(d.iso) THEN {"Dec_Content_iso"} ELSE {})
+  \cup (IF s.cfg.joliet # 0 /\ ModelBlobs(s, s.jol) # DecBlobs(d.jol) THEN {"Dec_Content_jol"} ELSE {})
+  \cup (IF ~SharedIffLinked(s, d) THEN {"SharedIffLinked"} ELSE {})
+
 \* names of the clauses in which projection o differs from model state s
 \* (\E over singleton sets binds evaluated values once; LET bodies are re-evaluated per use)
 MismatchOf(s, o, ti, tj, tu, tr) ==
@@ -88,6 +112,7 @@ MismatchOf(s, o, ti, tj, tu, tr) ==
   \cup (IF Len(o.iso) # Cardinality(DOMAIN ti) \/ Len(o.jol) # Cardinality(DOMAIN tj)
            \/ Len(o.udf) # Cardinality(DOMAIN tu) THEN {"UniqueNames"} ELSE {})
   \cup (IF s.npvd # o.npvd THEN {"NumPvd"} ELSE {})
+  \cup (IF o.dec.on THEN DecMismatch(s, o.dec) ELSE {})
   \cup (IF o.err # <<>> THEN {"ProjectionError"} ELSE {})
 Mismatch(s, o) ==
     CHOOSE m \in {MismatchOf(s, o, ObsTree(o.iso), ObsTree(o.jol), ObsTree(o.udf), ObsTree(o.rrv))} : TRUE
@@ -127,7 +152,10 @@ ApiStep(e) ==
            \* an exception type the library does not document escaped
            /\ Emit("undocumented", e, {"UndocumentedException"}, r.why)
            /\ st' = FromObs(Obs[e.o], st)
-      [] r.out = "ok" /\ e.res = "ok"      -> Judge(e, "accept", r.acc, "")
+      [] r.out = "ok" /\ e.res = "ok"      ->
+           \* where the statement leaves a choice (r.alt # r.acc) either outcome is accepted
+           IF r.alt # r.acc /\ Mismatch(r.acc, Obs[e.o]) # {} /\ Mismatch(r.alt, Obs[e.o]) = {}
+           THEN Judge(e, "accept", r.alt, "") ELSE Judge(e, "accept", r.acc, "")
       [] r.out = "ok" /\ e.res # "ok"      -> \* over-refusal: allowed, but nothing may change
            /\ PrintT(<<"OVER", ToJson([tid |-> Traces[tid].id, step |-> l, act |-> e.a.a, res |-> e.res])>>)
            /\ Judge(e, "refused", st, "over_refusal")
